@@ -470,7 +470,8 @@ class IndividualBOSS(BaseClassifier):
 
     def _set_word_len(self, word_len):
         self.word_length = word_len
-        self.transformer.word_length = word_len
+        # the transformer caps its word length at what the window allows
+        self.transformer.word_length = min(word_len, self.transformer.word_length)
 
 
 # @njit()
